@@ -92,6 +92,7 @@ func run(c *core.Case, st *core.CaseStats, seed int64) {
 		var gotS string
 		if guard(k+"Format", in, func() { got = cd.format(input); gotS = cd.formatS(string(input)) }) {
 			core.Retain(st, c, k+"FormatToString", in, gotS)
+			core.RetainBytes(st, c, k+"Format", in, got)
 			if !bytes.Equal(got, want) || gotS != string(want) {
 				rep(k+"Format", "value", in, string(want), []string{string(got), gotS})
 			}
@@ -118,8 +119,12 @@ func run(c *core.Case, st *core.CaseStats, seed int64) {
 		dst := make([]byte, len(src))
 		var n int
 		var s1, s2 string
+		src = core.Spare(src)
 		if !guard(k+"Parse", in, func() { n = cd.parse(dst, src) }) {
 			return
+		}
+		if !core.SpareIntact(src) {
+			rep(k+"Parse", "value", in, "nothing written behind the end of the input slice", "the caller's memory behind src changed")
 		}
 		if !guard(k+"ParseToString", in, func() { s1 = cd.parseSB(append([]byte{}, orig...)); s2 = cd.parseSS(string(orig)) }) {
 			return
